@@ -37,13 +37,15 @@ pub enum Rule {
     RefutableJoin,   // R10
     SelfRecursion,   // R11
     MutualRecursion, // R11
+    MutualRecursionPub, // R11 through a pub fn
     UnusedFn,        // R12
     PubFnNoParams,   // R13
+    RecursiveType,   // extra: a struct / enum that contains itself
     IndexNotUsize,   // extra: index of non-usize type
     AssignWrongType, // extra: assignment of a value of the wrong type
 }
 
-pub const ALL_RULES: [Rule; 30] = [
+pub const ALL_RULES: [Rule; 32] = [
     Rule::OperandKind,
     Rule::OperandWidth,
     Rule::CallArgReplace,
@@ -70,8 +72,10 @@ pub const ALL_RULES: [Rule; 30] = [
     Rule::RefutableJoin,
     Rule::SelfRecursion,
     Rule::MutualRecursion,
+    Rule::MutualRecursionPub,
     Rule::UnusedFn,
     Rule::PubFnNoParams,
+    Rule::RecursiveType,
     Rule::IndexNotUsize,
     Rule::AssignWrongType,
 ];
@@ -136,7 +140,13 @@ impl M {
                     }
                 }
                 if self.rule == Rule::OperandWidth {
+                    let is_shift = matches!(op, BinOp::Shl | BinOp::Shr);
                     for (side, x) in [("lhs", &mut **a), ("rhs", &mut **b)] {
+                        // the left operand of a shift alone fixes the result type: whether another
+                        // width is an error depends on the context (under a cast it is not)
+                        if is_shift && side == "lhs" {
+                            continue;
+                        }
                         if let ExprKind::Int(v, t) = x.kind {
                             let nt = Self::other_width(t);
                             if nt.fits(v) && self.hit() {
@@ -678,6 +688,14 @@ pub fn mutate(base: &Program, rule: Rule, k: usize) -> Option<(Program, String)>
                     m.mark(format!("{} calls itself", f.name));
                     break;
                 }
+                // any fn (pub ones included): a first statement `let rec_q = f(<its own parameters>);`
+                if m.hit() {
+                    let args: Vec<Expr> = f.params.iter().map(|p| var(&p.name)).collect();
+                    let name = f.name.clone();
+                    f.body.insert(0, let_("rec_q", call(&name, args)));
+                    m.mark(format!("{}{} calls itself with its own parameters", if f.is_pub { "pub fn " } else { "fn " }, name));
+                    break;
+                }
             }
         }
         Rule::MutualRecursion => {
@@ -702,10 +720,44 @@ pub fn mutate(base: &Program, rule: Rule, k: usize) -> Option<(Program, String)>
                 p.fns.push(nf);
             }
         }
+        Rule::MutualRecursionPub => {
+            let mut new_fn = None;
+            for f in p.fns.iter_mut() {
+                if f.is_pub && m.hit() {
+                    let args: Vec<Expr> = f.params.iter().map(|p| var(&p.name)).collect();
+                    f.body.insert(0, let_("rec_q", call("back_q", args)));
+                    new_fn = Some(FnDef {
+                        is_pub: false,
+                        name: "back_q".into(),
+                        params: f.params.iter().map(|p| Param { mutable: false, name: p.name.clone(), ty: p.ty.clone() }).collect(),
+                        ret: f.ret.clone(),
+                        body: vec![expr_stmt(call(&f.name.clone(), f.params.iter().map(|p| var(&p.name)).collect()))],
+                    });
+                    m.mark(format!("pub fn {} and back_q call each other", f.name));
+                    break;
+                }
+            }
+            if let Some(nf) = new_fn {
+                p.fns.push(nf);
+            }
+        }
         Rule::UnusedFn => {
             if m.hit() {
                 p.fns.push(FnDef { is_pub: false, name: "unused_q".into(), params: vec![Param { mutable: false, name: "v".into(), ty: Ty::u8() }], ret: Ty::u8(), body: vec![expr_stmt(var("v"))] });
                 m.mark("an uncalled private fn is added");
+            }
+        }
+        Rule::RecursiveType => {
+            if m.hit() {
+                p.defs.add_struct("Rq", vec![("r", Ty::Struct("Rq".into())), ("v", Ty::u8())]);
+                m.mark("a struct that contains itself is added");
+            } else if m.hit() {
+                p.defs.add_struct("Rq", vec![("e", Ty::arr(Ty::Enum("Eq".into()), 1))]);
+                p.defs.add_enum("Eq", vec![("W", None), ("V", Some(vec![Ty::Tup(vec![Ty::u8(), Ty::Struct("Rq".into())])]))]);
+                m.mark("a struct and an enum that contain each other (through an array and a tuple) are added");
+            } else if m.hit() {
+                p.defs.add_enum("Eq", vec![("W", None), ("V", Some(vec![Ty::u8(), Ty::Enum("Eq".into())]))]);
+                m.mark("an enum that contains itself is added");
             }
         }
         Rule::PubFnNoParams => {
@@ -755,12 +807,12 @@ fn render(p: &Program) -> String {
 pub fn base_programs(tier: Tier) -> Vec<(String, Program)> {
     let mut out = vec![];
     // family S: n <= 1 (level-1 templates), D: n <= 1, P: n = 1, plus E samples, plus enum/struct programs of C08's shape
-    let (jobs, _) = c01::family_jobs(Tier::Quick, &["S", "D", "P"]);
+    let (jobs, _) = c01::family_jobs(Tier::Quick, if tier == Tier::Thorough { &["S", "D", "P", "T", "X", "E-small"] } else { &["S", "D", "P", "X"] });
     for j in jobs {
         let keep = match j.family {
-            "S" => j.site.starts_with("S/n0") || j.site.starts_with("S/n1") || (tier == Tier::Thorough && j.site.starts_with("S/n2")),
-            "D" => j.site.starts_with("D/n0") || j.site.starts_with("D/n1") || tier == Tier::Thorough,
-            "P" => j.site.starts_with("P/n1") || (tier == Tier::Thorough && j.site.starts_with("P/n2")),
+            "S" | "D" | "P" => true,
+            "X" => tier == Tier::Thorough || j.site.len() % 4 == 0,
+            "T" | "E" => true,
             _ => false,
         };
         if keep {
